@@ -717,6 +717,22 @@ class ServiceType(CompositeType):
     def _check_aggregation(self, aggregate: "SerializableType") -> typing.Optional[AggregationFailure]:
         return AggregationFailure(self, aggregate, "A service type cannot be nested into another type")
 
+    def __hash__(self) -> int:
+        return hash((str(self), self._request_type, self._response_type))
+
+    def __eq__(self, other: object) -> bool:
+        """
+        A service has no bit length set of its own to tell two definitions of the same name and version apart,
+        so its request and response types are compared.
+        """
+        if isinstance(other, ServiceType):
+            return (
+                str(self) == str(other)
+                and self._request_type == other._request_type
+                and self._response_type == other._response_type
+            )
+        return super().__eq__(other)
+
     @property
     def request_type(self) -> CompositeType:
         assert self._request_type.has_parent_service
